@@ -1,16 +1,18 @@
 (* Properties_C14.v — C14: ISO-8601 text of times and durations is calendar-correct and parses back
    exactly.  Statements only; proofs in Chrono*.v.
 
-   Model: ChronoModel.v (mirror of convert_chrono.h / bin_timestamp.h).  Spec: ChronoSpec.v (leap rule,
-   month lengths, next_day, closed-form day count, ISO text).  c14_rep: the representations the property
-   quantifies over (int64 for every precision, int32 for seconds and coarser).  rep3: int64, int32, uint64.
+   Model: ChronoModel.v, the mirror of convert_chrono.h / bin_timestamp.h at /repo beee810 (after the
+   repairs 0e78f9f 60cbc0d 30f5d3e 302fac1 5f3f75a d4af9ec beee810).  Spec: ChronoSpec.v (leap rule, month
+   lengths, next_day, closed-form day count, ISO text).
+   Representation domains:  c14_rep P R  =  R is int64 or int32 (every precision);  rep3 R = int64, int32
+   or uint64.  8-bit representations are outside every theorem below (K48: std::chrono::round / floor
+   wrap for int8 targets); unsigned time points cannot be printed at all (the library does not compile).
 
-   Where the faithful model falsifies the full-strength statement, the statement is kept, a kernel-
-   evaluated witness refutes it (_refuted) and the same statement is proved outside a decidable class of
-   counts (_outside):
-     rt_defect      F30 first partial calendar day of the range (start of the floor day not representable)
-                    or a year of 16+ digits (32-byte buffer / days + 719468 overflow)
-     print_defect   rt_defect, or an instant of the years -999..-1 (F31, printed with three digits) *)
+   One input class is left on which the faithful model falsifies the full-strength statements; for it the
+   statement is kept, refuted by a kernel-evaluated witness (_refuted) and proved outside the class
+   (_outside):
+     rt_defect P R t  =  2^63 - 1 - 719468 < t / ticks_per_day
+                         (K35: the last 719468 values of time_point<days,int64>; days + 719468 overflows) *)
 From BS Require Import Base ChronoSpec ChronoModel ChronoArith ChronoDecimal ChronoSweep ChronoCalendar ChronoYear
   ChronoSafe ChronoSafeAdd ChronoText ChronoTp ChronoTpParse ChronoTpRt ChronoTs ChronoRefute.
 Local Open Scope Z_scope.
@@ -47,8 +49,7 @@ Example T_C14_civil_example : civil_from_days 19782 = (2024, 2, 29) /\ civil_fro
 Proof. split; vm_compute; reflexivity. Qed.
 Print Assumptions T_C14_civil_example.
 
-(* ---- the date-time a count denotes (spec_datetime is built from the spec calendar through
-        T_C14_calendar_unique; it is valid and denotes exactly t ticks) ---- *)
+(* ---- the date-time a count denotes: valid, and denotes exactly t ticks ---- *)
 Theorem T_C14_spec_datetime : forall P t,
   valid_datetime (spec_datetime P t) /\ instant_ns (spec_datetime P t) = t * tick_ns P.
 Proof. exact spec_datetime_valid. Qed.
@@ -56,62 +57,65 @@ Print Assumptions T_C14_spec_datetime.
 
 (* ---- T_C14_print, full strength:
         forall P R t, c14_rep P R -> fits R t = true -> tp_print P R t = Ok (iso_text P (spec_datetime P t))
-      is FALSE of the current code: ---- *)
+      (the documented text [+-]YYYY-MM-DDThh:mm:ss[.f]Z of the proleptic-Gregorian date-time, sign exactly
+      outside 0000..9999, 3/6/9 fraction digits; includes: no UB, fits the 48-byte buffer).
+      Still FALSE on K35: ---- *)
 Theorem T_C14_print_refuted : exists P R t, c14_rep P R /\ fits R t = true /\
   tp_print P R t <> Ok (iso_text P (spec_datetime P t)).
 Proof.
-  exists Pns, I64, (-9223372036854775808). split; [left; reflexivity|]. split; [reflexivity|].
-  rewrite w_F30_print. discriminate.
+  exists Pd, I64, 9223372036854775807. split; [left; reflexivity|]. split; [reflexivity|].
+  destruct w_K35 as (H & _). rewrite H. discriminate.
 Qed.
 Print Assumptions T_C14_print_refuted.
 
-Theorem T_C14_print_outside : forall P R t, c14_rep P R -> fits R t = true -> print_defect P R t = false ->
+Theorem T_C14_print_outside : forall P R t, c14_rep P R -> fits R t = true -> rt_defect P R t = false ->
   tp_print P R t = Ok (iso_text P (spec_datetime P t)).
 Proof. exact tp_print_correct. Qed.
 Print Assumptions T_C14_print_outside.
 
-(* the other two members of the defect class, as observed behaviour *)
-Example T_C14_print_F31 :
-  tp_print Ps I64 (-62198755200) = Ok [45;48;48;49;45;48;49;45;48;49;84;48;48;58;48;48;58;48;48;90]%N /\
-  iso_text Ps (spec_datetime Ps (-62198755200)) = [45;48;48;48;49;45;48;49;45;48;49;84;48;48;58;48;48;58;48;48;90]%N.
-Proof. exact w_F31. Qed.
-Print Assumptions T_C14_print_F31.
-Example T_C14_print_BUF :
-  tp_print Ph I64 9223372036854775807 = Err RuntimeError /\ tp_print Pd I64 9223372036854000000 = UB UBBuffer /\
-  tp_print Pd I64 9223372036854775807 = UB UBOverflow.
-Proof. exact (conj w_BUF_exc (conj w_BUF_ub w_days_overflow)). Qed.
-Print Assumptions T_C14_print_BUF.
+(* the defect class is empty except for time_point<days,int64> *)
+Theorem T_C14_defect_class : forall P R t, c14_rep P R -> fits R t = true -> rt_defect P R t = true -> P = Pd /\ R = I64.
+Proof. exact rt_defect_days. Qed.
+Print Assumptions T_C14_defect_class.
+
 Example T_C14_print_example :
-  print_defect Pms I64 1689374691925 = false /\
+  rt_defect Pms I64 1689374691925 = false /\
   tp_print Pms I64 1689374691925 = Ok [50;48;50;51;45;48;55;45;49;52;84;50;50;58;52;52;58;53;49;46;57;50;53;90]%N.
 Proof. split; vm_compute; reflexivity. Qed.
 Print Assumptions T_C14_print_example.
 
+(* regression: the inputs of the repaired defects F30, F31, BUF (K30, K32, K33, K34) *)
+Example T_C14_print_repaired :
+  tp_print Pns I64 (-9223372036854775808) = Ok text_F30 /\
+  tp_print Ps I64 (-62198755200) = Ok [45;48;48;48;49;45;48;49;45;48;49;84;48;48;58;48;48;58;48;48;90]%N /\
+  tp_print Ph I64 9223372036854775807 = Ok [43;49;48;53;50;49;57;55;50;56;56;54;53;56;57;48;57;45;49;48;45;49;48;84;48;55;58;48;48;58;48;48;90]%N /\
+  tp_print Pd I64 9223372036854000000 = Ok [43;50;53;50;53;50;55;51;52;57;50;55;55;54;54;52;48;48;45;48;54;45;50;53;84;48;48;58;48;48;58;48;48;90]%N.
+Proof. destruct r_F30 as [H1 _]. destruct r_BUF as [H3 H4]. exact (conj H1 (conj r_F31 (conj H3 H4))). Qed.
+Print Assumptions T_C14_print_repaired.
+
 (* ---- T_C14_parse_print, full strength:
-        forall P R t, c14_rep P R -> fits R t = true -> exists text, tp_print P R t = Ok text /\ tp_parse P R text = Ok t ---- *)
+        forall P R t, c14_rep P R -> fits R t = true -> exists text, tp_print P R t = Ok text /\ tp_parse P R text = Ok t
+      still FALSE on K35 (nothing is printed there): ---- *)
 Theorem T_C14_parse_print_refuted : exists P R t, c14_rep P R /\ fits R t = true /\
   ~ (exists text, tp_print P R t = Ok text /\ tp_parse P R text = Ok t).
 Proof.
-  exists Pns, I64, (-9223372036854775808). split; [left; reflexivity|]. split; [reflexivity|].
-  intros (text & H & _). rewrite w_F30_print in H. discriminate.
+  exists Pd, I64, 9223372036854775807. split; [left; reflexivity|]. split; [reflexivity|].
+  intros (text & H & _). destruct w_K35 as (H' & _). rewrite H' in H. discriminate.
 Qed.
 Print Assumptions T_C14_parse_print_refuted.
 
-(* outside F30 and the 16-digit years the round trip is exact — including the years -999..-1 *)
 Theorem T_C14_parse_print_outside : forall P R t, c14_rep P R -> fits R t = true -> rt_defect P R t = false ->
   exists text, tp_print P R t = Ok text /\ tp_parse P R text = Ok t.
 Proof. exact tp_roundtrip. Qed.
 Print Assumptions T_C14_parse_print_outside.
 
-(* the parse half of F30 on its own: a documented text of a representable instant is rejected *)
-Example T_C14_parse_F30 : tp_parse Pns I64 text_F30 = Err OutOfRange.
-Proof. exact w_F30_parse. Qed.
-Print Assumptions T_C14_parse_F30.
+Example T_C14_parse_repaired : tp_parse Pns I64 text_F30 = Ok (-9223372036854775808).
+Proof. exact (proj2 r_F30). Qed.
+Print Assumptions T_C14_parse_repaired.
 
-(* ---- T_C14_bin_ts (after the F07 repair): value -> CBinTimestamp is (floor seconds, nanoseconds in
-        0..999999999) of the instant, and both reverse conversions give the value back, for every
-        representable value of int64 / int32 / uint64 representations of every precision whose seconds
-        fit the timestamp's int64 ---- *)
+(* ---- T_C14_bin_ts: value -> CBinTimestamp is (floor seconds, nanoseconds in 0..999999999) of the instant,
+        and both reverse conversions give the value back, for every representable value of int64 / int32 /
+        uint64 representations of every precision whose seconds fit the timestamp's int64 ---- *)
 Theorem T_C14_bin_ts : forall P R t, rep3 R -> fits R t = true ->
   fits I64 (fst (ts_of_ns (t * tick_ns P))) = true ->
   ts_to P R t = Ok (ts_of_ns (t * tick_ns P)) /\
@@ -133,3 +137,27 @@ Example T_C14_bin_ts_example :
   ts_from_dur Pns I64 (-9223372037) 145224192 = Ok (-9223372036854775808).
 Proof. repeat split; vm_compute; reflexivity. Qed.
 Print Assumptions T_C14_bin_ts_example.
+
+(* ======================================================================================================
+   NOT PROVED (kept here at full strength; nothing below is claimed by the obligations above)
+
+   T_C14_duration :
+     forall P R d, (R = I64 \/ R = I32) -> fits R d = true ->
+       exists text, dur_print P R d = Ok text /\
+         (exists f, df_wf f /\ text = df_render f /\ df_value_ns f = d * tick_ns P /\ the components of f are
+            the days / hours < 24 / minutes < 60 / seconds < 60 / fraction of |d|, zero components omitted,
+            "PT0S" for zero) /\
+         dur_parse P R text = Ok d.
+     State of the proof: the step lemmas are proved (ChronoDur.v: dcast_unit, part_step, pstep, sec_step_frac,
+     psf_var, dur_facts — each PrintDurationPart call prints the quotient of the remaining count and leaves
+     the remainder, inside the buffer); the assembly of the four steps (dur_print_ok) and the parse-back half
+     are not finished.  The correspondence (props/C14.py: dur.print / dur.parse / sweep.rt dur) covers
+     durations behaviourally for every (P,R) of the catalogue.
+
+   Representation domains not covered by the theorems above:
+     - int8_t representations (K48), time_t through CRawTime (it is time_point<seconds,int64>, covered as
+       (Ps, I64)), struct tm, and char16_t / char32_t input (narrowing by Utf8::Encode; properties C11/C12):
+       correspondence only.
+     - T_C14_bin_ts composes with the MsgPack wire form proved in the MsgPack family (C06/C07); the
+       composition itself is not stated here.
+   ====================================================================================================== *)
